@@ -457,4 +457,5 @@ func TestC18(t *testing.T) {
 		run.Violation("history-pattern:rotate", fmt.Sprintf("after Rotate the new signer must be used (calls=%d err=%v)", s2.n, err), nil)
 	}
 	c18Histories(run, r)
+	c18Entropy(run, r)
 }
